@@ -44,7 +44,7 @@ ASSUMPTIONS = [
     "for accepted foreign payloads one decode-encode pass must reach a fixed point that decodes to the same value",
 ]
 MUST_REACH = {"serializer_keys_covered": 180, "int_raw_checks": 100000, "byte_payload_checks": 1000,
-              "fuzz_accepted": 50, "literal_checks": 10000, "block_api_checks": 500, "block_member_assignments": 50, "block_pretty_assignments": 100, "tz_covered": 3,
+              "fuzz_accepted": 50, "literal_checks": 10000, "block_api_checks": 500, "block_member_assignments": 50, "block_pretty_assignments": 100, "block_values_scribbled": 40, "tz_covered": 3,
               "negative_raws_on_signed_flag_fields": 10, "context_values": 20}
 
 
@@ -501,6 +501,17 @@ def check_bytes_key(ctx, rng, key, ser, var):
             ctx.count("block_api_checks")
             block[vname] = p
             try:
+                # the value handed out belongs to the caller: editing it in place must not change what the block
+                # hands out next time for the same (unchanged) raw bytes
+                first = block.deserialize_var(vname)
+                before = gen_spec.canon(first)
+                if _scribble(first):
+                    ctx.count("block_values_scribbled")
+                    again = block.deserialize_var(vname)
+                    if gen_spec.canon(again) != before:
+                        ctx.violation("block-cache-aliased", "editing a value returned by Block.deserialize_var changed what the "
+                                      "block returns for the same raw bytes", {"key": list(key), "context": label, "payload": p[:120],
+                                                                             "before": repr(before)[:200], "after": repr(gen_spec.canon(again))[:200]})
                 v = block.deserialize_var(vname)
                 block.serialize_var(vname, v)
                 if bytes(block[vname]) != p:
@@ -509,6 +520,44 @@ def check_bytes_key(ctx, rng, key, ser, var):
             except Exception as e:
                 ctx.violation("block-api-raises", "Block.deserialize_var/serialize_var raised on an own payload",
                               {"key": list(key), "context": label, "payload": p[:200], "exc": repr(e)[:200]})
+
+
+def _scribble(v, depth=0):
+    """Edit a decoded value in place somewhere (first mutable container found). Returns True if something was changed."""
+    import dataclasses
+    from hippolyzer.lib.base.datatypes import TaggedUnion
+    if depth > 4:
+        return False
+    if isinstance(v, TaggedUnion):
+        return _scribble(v.value, depth + 1)
+    if isinstance(v, dict):
+        for k in list(v.keys()):
+            if _scribble(v[k], depth + 1):
+                return True
+        if v:
+            v.pop(next(iter(v)))
+            return True
+        v["hv-scribble"] = 1
+        return True
+    if isinstance(v, list):
+        for x in v:
+            if _scribble(x, depth + 1):
+                return True
+        v.append("hv-scribble")
+        return True
+    if dataclasses.is_dataclass(v) and not isinstance(v, type):
+        for f in dataclasses.fields(v):
+            x = getattr(v, f.name, None)
+            if _scribble(x, depth + 1):
+                return True
+        fs = dataclasses.fields(v)
+        if fs:
+            try:
+                setattr(v, fs[0].name, "hv-scribble")
+                return True
+            except Exception:
+                return False
+    return False
 
 
 def _needs_block_ctx(ser):
